@@ -6,12 +6,19 @@ primitives (exact sampler / estimator of vlib.solverkit; estimator, sampler and 
 mutually_exclusive_primitives), a deterministic optimiser (solverkit.CoordinateSearch; in some configurations
 qiskit's SPSA, which draws from the algorithm_globals generator the package seeds per task, or NFT) and ONE worker
 thread, or one call of a random constructor (layer, individual, population, job-shop instance) — is run
-  (a) twice in this process, from freshly constructed objects, under two different ambient states (global `random`
-      state, `numpy.random` state, algorithm_globals.random_seed), the second pass in a permuted call order;
+  (a) three times in this process, from freshly constructed objects: run A under a freshly seeded ambient state
+      (global `random` state, `numpy.random` state, algorithm_globals.random_seed); run C IMMEDIATELY afterwards,
+      back to back, with the ambient generators only advanced by one draw and nothing re-seeded (a call that relies
+      on state left behind by the previous identical call - e.g. re-seeding qiskit's global generator only "when the
+      seed changed" - shows here; some configurations perform exactly one seeded optimiser run per solve with an
+      optimiser that draws from algorithm_globals.random, so that the repetition asks for the seed that is still
+      active); run B later, in a permuted call order, under a differently seeded ambient state.  The seeded
+      optimisation functions of mutation.py (optimize_layer_of_individual, optimize_all_parameters_of_individual)
+      are called directly as well, as a fifth constructor-like kind of job;
   (b) in three child processes started with PYTHONHASHSEED = 0, 1, 4242, each with its own ambient state and its
       own call order.
 The canonical fingerprint of everything returned AND the complete decision log of every `Random` the package
-created must be identical in all five runs (vlib/reprokit.py).  A difference is an oracle violation; the replay
+created must be identical in all six runs (vlib/reprokit.py).  A difference is an oracle violation; the replay
 is the job, the pair of runs and the first differing place.
 
 Correspondence: the logged traces replay through the Coq model (QV.Repro.ReproCheck / QV.Evqe.C20Check): from the
@@ -67,11 +74,34 @@ def solve_setups(rng, n, quick):
             alpha=rng.choice([1, 1, 0.5]), shots=64,
             optimizer=["coordinate", "coordinate", "coordinate", "spsa", "nft", "coordinate"][k % 6] if k < 12 else rng.choice(["coordinate", "coordinate", "spsa", "nft"]),
         ))
+    # configurations with exactly ONE seeded optimiser run per solve (one individual, one generation) and an optimiser
+    # that draws from qiskit's global algorithm_globals generator: the last optimiser seed of one solve is the first
+    # of its immediate repetition, so a seed that is not re-applied leaves the second solve on leftover state
+    for j in range(max(2, n // 8)):
+        s = out[-1 - j]
+        s.update(population_size=1, max_generations=1, optimizer="spsa", n_qubits=[2, 3, 2, 1][j % 4],
+                 tournament_size=1 if s["tournament"] else None, n_initial_layers=1, evaluator=["estimator", "sampler"][j % 2])
     return [{"kind": "solve", "setup": s} for s in out]
 
 
 DYADIC = [[[1.0, 1.0]], [[0.5, 0.5], [1.0, 0.5]], [[0.5, 0.25], [1.0, 0.25], [0.75, 0.5]], [[1.0, 0.125], [0.5, 0.875]]]
 DURS = [[[1, 1.0]], [[1, 0.5], [2, 0.5]], [[3, 0.25], [1, 0.25], [2, 0.5]], [[2, 0.5], [5, 0.375], [1, 0.125]]]
+
+
+def optimize_jobs(rng, n):
+    """Direct calls of optimize_layer_of_individual / optimize_all_parameters_of_individual with a seed."""
+    jobs = []
+    for k in range(n):
+        nq = rng.randint(1, 3)
+        ind = ev.random_valid_individual(rng, n=nq, n_layers=1 if k % 3 == 0 else rng.randint(1, 3), value=lambda: rng.choice([0.0, 0.5, -1.25, 2.0, rng.uniform(-3, 3)]))
+        if all(g[0] in ("I", "C") for g in ind["layers"][-1]["gates"]):
+            ind["layers"][-1] = ev.random_valid_layer(rng, nq, allow_empty=False)
+            ind["values"] = [0.25] * sum(ev.layer_n_parameters(l) for l in ind["layers"])
+        jobs.append({"kind": "optimize", "args": {
+            "individual": ind, "layer": "all" if k % 2 else rng.choice([-1, 0, len(ind["layers"]) - 1]),
+            "optimizer": ["spsa", "spsa", "coordinate", "nft"][k % 4], "seed": rng.choice([0, 7, rng.randint(0, 2**31 - 1)]),
+            "coeffs": [rng.choice([-1.0, -0.5, 0.25, 0.5, 1.0, 2.0]) for _ in range(4)]}})
+    return jobs
 
 
 def constructor_jobs(rng, n):
@@ -206,9 +236,10 @@ def five_runs(ctx, jobs, rk, shards=2):
             order = list(range(len(part)))
             order_rng.shuffle(order)
             children.append((hs, part, rk.start_child([jobs[i] for i in part], hs, ambient=1000 + hs, order=order)))
-    runs = {"A": [None] * n, "B": [None] * n}
+    runs = {"A": [None] * n, "C": [None] * n, "B": [None] * n}
     for i in range(n):
         runs["A"][i] = rk.run_job(jobs[i], ambient=1 + 2 * i)
+        runs["C"][i] = rk.run_job(jobs[i], ambient=None)  # immediately again, nothing re-seeded in between
     second = list(range(n))
     order_rng.shuffle(second)
     for i in second:
@@ -234,10 +265,10 @@ def judge(ctx, jobs, runs, rk, origin="generated"):
                 continue
             diff = rk.compare_runs(a, rs[i])
             if diff:
-                where = "in-process" if label == "B" else "across-hashseed"
+                where = {"B": "in-process", "C": "back-to-back"}.get(label, "across-hashseed")
                 bad.add(i)
                 what = (f"{job['kind']}: two runs of the same seeded call differ ({where}: run A of this process vs "
-                        f"{'second run in this process under another ambient random state' if label == 'B' else 'child process with PYTHONHASHSEED=' + label[1:]}); "
+                        f"{label_of(label)}); "
                         f"first difference in the {diff['where']} at {diff['path']}")
                 ctx.violation("oracle", f"{job['kind']}:{where}", what,
                               case=dict(job=job, runs=["A", label], origin=origin),
@@ -247,7 +278,9 @@ def judge(ctx, jobs, runs, rk, origin="generated"):
 
 
 def label_of(label):
-    return {"A": "this process, first pass", "B": "this process, second pass (permuted order, other ambient state)"}.get(label, f"child process PYTHONHASHSEED={label[1:]}")
+    return {"A": "this process, first pass (ambient generators freshly seeded)",
+            "C": "this process, immediate back-to-back repetition (ambient generators only advanced by a draw, nothing re-seeded)",
+            "B": "this process, second pass (permuted call order, ambient generators seeded differently)"}.get(label, f"child process PYTHONHASHSEED={label[1:]}")
 
 
 def correspond(ctx, jobs, runs, skip):
@@ -264,6 +297,8 @@ def correspond(ctx, jobs, runs, skip):
                 own.append(g_solve_case(job, run)); own_idx.append(i)
             elif job["kind"] == "jssp":
                 own.append(g_jssp_case(job, run)); own_idx.append(i)
+            elif job["kind"] == "optimize":
+                ctx.tally("not_model_replayed:optimize")  # compared between runs only
             else:
                 c20.append(g_c20_case(job, run)); c20_idx.append(i)
         except Exception as e:  # a log the literal printer cannot express is itself a disagreement with the model
@@ -319,7 +354,7 @@ def run_jobs(ctx, jobs, origin="generated"):
     ctx.notes["children"] = info
     for i, job in enumerate(jobs):
         a = runs["A"][i]
-        nontrivial = len(a["log"]["main"]) > 1
+        nontrivial = len(a["log"]["main"]) > 1 or job["kind"] == "optimize"
         ctx.case(job, nontrivial, sample=dict(job=job, decisions=len(a["log"]["main"]) + len(a["log"]["worker"])) if i % 7 == 0 else None)
         tally_job(ctx, job, a)
     bad = judge(ctx, jobs, runs, rk, origin)
@@ -332,8 +367,8 @@ def run(ctx):
         raise RuntimeError("logging Random does not reproduce random.Random")
     ctx.rule = ("case = one seeded call (whole single-worker EVQE solve with deterministic primitives/optimiser, or one random "
                 "constructor call); distinct by the JSON of its configuration/arguments; non-trivial = the call consumed random "
-                "decisions beyond constructing its generator; each case is executed 5 times (2 in-process under different "
-                "ambient random states and call orders, 3 child processes with PYTHONHASHSEED 0/1/4242) and all fingerprints and "
+                "decisions beyond constructing its generator; each case is executed 6 times (3 in-process: freshly seeded ambient state, immediate back-to-back repetition without re-seeding, "
+                "later repetition in permuted call order under another ambient state; 3 child processes with PYTHONHASHSEED 0/1/4242) and all fingerprints and "
                 "decision logs compared, then replayed through the Coq model")
     corpus = sorted((core.ROOT / "corpus" / "C17").glob("*.json"))
     jobs = []
@@ -343,6 +378,7 @@ def run(ctx):
     n_corpus = len(jobs)
     jobs += solve_setups(ctx.rng, ctx.n(16, 96), ctx.quick)
     jobs += constructor_jobs(ctx.rng, ctx.n(200, 2400))
+    jobs += optimize_jobs(ctx.rng, ctx.n(24, 240))
     ctx.notes["corpus_cases"] = n_corpus
     run_jobs(ctx, jobs)
 
